@@ -42,6 +42,14 @@ CLAIMS = {
          "Proved: adfCountFreeBlocks (mirror over the regenerated bit test) counts exactly the free bits of blocks 2..last; allocating lowers it by exactly one; the two block-count computations used at creation and at release agree for every size. Decided per explored history: allocated = reachable + reserved (decoder) and library free count = bitmap count at every dump; create/truncate/delete cycles over the size classes 0, <72, =72, >72, >144 data blocks restore the initial free count; with and without directory cache; floppies, hardfiles, partitions.",
          "Conservation over histories is exploration judged by the Coq decoder; counting theorems are unbounded.",
          "decoder-judged exploration + Coq proof of the counting arithmetic", "DESIGN.md section 5 C05"),
+ "C07": ("exploration",
+         "Proved (regenerated expressions): the record length announced by adfEntry2CacheEntry equals what adfPutCacheEntry writes, is even and within 26..134, so a record passing the `offset+len <= 488` test stays inside the record area. Decided per explored history on DIRCACHE volumes: directories grown over 1..4 cache blocks with record lengths chosen to land on / one past the area end, deletes at head/middle/tail, each block of a chain emptied, records lengthened/shortened by rename and comment, sizes updated on flush; judges: listing served from the cache vs the reference model, and the extracted decoder (chain well formed, records in area, counts, ownership, cached records = hash-table entries on names/types/sizes/protection/comments).",
+         "Coherence over histories: exploration judged by the Coq decoder; theorems: record length arithmetic only. Dates are not compared.",
+         "decoder-judged exploration + Coq proof of record-length arithmetic", "DESIGN.md section 5 C07"),
+ "C08": ("exploration",
+         "Proved (model of the allocator scan, C04): a request is refused only when fewer blocks are free than asked, and a refusal leaves the bitmap untouched. Decided per explored history: real exhaustion (volume pre-filled leaving 0..5 blocks, then block-hungry operations at several alignments incl. the 72-block extension boundary and a nearly full cache block) and forced exhaustion (request j = 1..4 of a call and all later ones refused); after each episode the result is compared with the reference model replayed with the accepted byte count, bystander files are read back, the extracted decoder judges structure and exact free-space accounting before/after/after remount, and the freed space is filled again to the same capacity.",
+         "Per explored history; a call may fail for lack of space only inside the marked window. Filler files are judged by the decoder but not replayed in the model.",
+         "exhaustion enumeration judged by Coq reference model and decoder + Coq proof of allocator refusal", "DESIGN.md section 5 C08"),
 }
 
 def main():
